@@ -34,6 +34,13 @@ var lifeSQL = map[string]string{
 	"tumbling": "SELECT g, count(*) AS c FROM stream GROUP BY g, TumblingWindow('1s') WITH (TIMESTAMP='ts', TIMEUNIT='ms')",
 	"cep":      "SELECT * FROM stream MATCH_RECOGNIZE (PARTITION BY g ORDER BY ts MEASURES COUNT(*) AS n, FIRST(id) AS f PATTERN (A+) DEFINE A AS v > 0)",
 	"analytic": "SELECT id, lag(v) AS p, acc_sum(v) AS s FROM stream",
+	"sliding":  "SELECT g, count(*) AS c FROM stream GROUP BY g, SlidingWindow('2s','1s') WITH (TIMESTAMP='ts', TIMEUNIT='ms')",
+	"session":  "SELECT g, count(*) AS c FROM stream GROUP BY g, SessionWindow('1s') WITH (TIMESTAMP='ts', TIMEUNIT='ms', MAXOUTOFORDERNESS='400ms')",
+	"global":   "SELECT g, count(*) AS c, sum(v) AS s FROM stream GROUP BY g, GLOBAL WINDOW TRIGGER WHEN count(*) >= 3",
+	"ptumble":  "SELECT g, count(*) AS c FROM stream GROUP BY g, TumblingWindow('15ms')",
+	"pslide":   "SELECT g, count(*) AS c FROM stream GROUP BY g, SlidingWindow('30ms','10ms')",
+	"psession": "SELECT g, count(*) AS c FROM stream GROUP BY g, SessionWindow('10ms')",
+	"late":     "SELECT g, count(*) AS c FROM stream GROUP BY g, TumblingWindow('1s') WITH (TIMESTAMP='ts', TIMEUNIT='ms', MAXOUTOFORDERNESS='200ms', ALLOWEDLATENESS='2s', IDLETIMEOUT='50ms')",
 }
 
 // engineGoroutines counts goroutines whose stack shows engine code (not the harness).
